@@ -49,6 +49,7 @@ void Session::start_server()
 	Addr h4 = SRV4, h6 = SRV6;
 	srv = W.add_instance("iodined", entry_srv(), image_srv(), a, h4, h6, c.srv_seed);
 	if (c.pass_env_server) srv->env["IODINED_PASS"] = c.password;
+	else if (!c.decoy_env_server.empty()) srv->env["IODINED_PASS"] = c.decoy_env_server;
 }
 
 Addr Session::client_addr(int k) const
@@ -84,6 +85,7 @@ void Session::start_client(int k)
 	ImageRegion *im = k == 0 ? image_cli0() : (k == 1 ? image_cli1() : image_cli2());
 	cli[k] = W.add_instance(fmt("iodine%d", k), entry, im, a, h4, h6, c.cli_seed + 1000 * k);
 	if (c.pass_env_client) cli[k]->env["IODINE_PASS"] = c.password;
+	else if (!c.decoy_env_client.empty()) cli[k]->env["IODINE_PASS"] = c.decoy_env_client;
 }
 
 bool Session::client_up(int k) const
